@@ -421,7 +421,7 @@ fn bomb(a: &Value) -> Vec<u8> {
                 for k in 1..=5u32 {
                     o.extend_from_slice(format!("{:010} 00000 n \n", b.off(k)).as_bytes());
                 }
-                o.extend_from_slice(format!("trailer\n<< /Size 6 /Root 1 0 R /Prev {:010} >>\n", prev).as_bytes());
+                o.extend_from_slice(format!("trailer\n<< /Size 6 /Root 1 0 R /Prev {:>10} >>\n", prev).as_bytes());
                 at
             };
             let a1 = o.len();
